@@ -202,6 +202,15 @@ func TestC19Register(t *testing.T) {
 		if _, err := w.registryMS.RegisterSpec(w.ctx, &registrytypes.MsgRegisterSpec{Registrar: w.accts[0].String(), QueryType: base, Spec: orig}); err != nil {
 			t.Fatalf("register %q: %v", base, err)
 		}
+		// in half of the cases governance updates the spec first (also with fields left empty, as a partial update would)
+		if r.Intn(2) == 0 {
+			upd := mk(uint64(3+r.Intn(5)), pick(r, "uint256", "bytes32", "string"))
+			upd.Registrar = pick(r, "", "", w.accts[0].String())
+			upd.DocumentHash = pick(r, "", "updated")
+			if _, err := w.registryMS.UpdateDataSpec(w.ctx, &registrytypes.MsgUpdateDataSpec{Authority: w.authority, QueryType: base, Spec: upd}); err != nil {
+				t.Fatalf("update %q: %v", base, err)
+			}
+		}
 		stored, err := w.s.Registrykeeper.GetSpec(w.ctx, strings.ToLower(base))
 		if err != nil {
 			t.Fatal(err)
